@@ -299,10 +299,6 @@ func (g *c09Gen) section() verifh.Section {
 					m = c09Methods[r.Intn(len(c09Methods))]
 				}
 			}
-			at := firstReq + r.Intn(len(ops)-firstReq+1)
-			op := fmt.Sprintf("route m=%s p=%s h=%d", m, g.dirty(toks, 12), id)
-			ops = append(ops[:at], append([]string{op}, ops[at:]...)...)
-			// and ask for it afterwards
 			var inst []string
 			for _, t := range toks {
 				if strings.HasPrefix(t, ":") {
@@ -311,7 +307,20 @@ func (g *c09Gen) section() verifh.Section {
 					inst = append(inst, t)
 				}
 			}
-			ops = append(ops, fmt.Sprintf("req m=%s p=%s n=%d", m, g.dirty(inst, 10), rep))
+			ins := func(at int, op string) {
+				ops = append(ops[:at], append([]string{op}, ops[at:]...)...)
+			}
+			// the same request before the registration (404/405 then) and after it
+			at := firstReq + r.Intn(len(ops)-firstReq+1)
+			ins(at, fmt.Sprintf("route m=%s p=%s h=%d", m, g.dirty(toks, 12), id))
+			rm := m // a third of these ask with another method: 404 before, 405 after
+			if r.Chance(1, 3) {
+				rm = c09Methods[r.Intn(len(c09Methods))]
+			}
+			if r.Chance(3, 4) {
+				ins(firstReq+r.Intn(at-firstReq+1), fmt.Sprintf("req m=%s p=%s n=%d", rm, g.dirty(inst, 10), rep))
+			}
+			ops = append(ops, fmt.Sprintf("req m=%s p=%s n=%d", rm, g.dirty(inst, 10), rep))
 		}
 	}
 	return verifh.Section{Cfg: fmt.Sprintf("kind=router mode=%d", mode), Ops: ops}
